@@ -106,6 +106,17 @@ CHECKS = {
         technique="TLA+ spec Arc.tla/Lattice.tla: TLC-enumerated exact instances with spec-level identities; instance evaluation "
                   "of the implementation under similarity conjugation",
         ref="DESIGN.md section 4 C08"),
+    "C14": dict(
+        text="Quality.tla supplies a catalogue of lattice cells and the orientation-preserving renumberings computed from "
+             "Hex.tla's symmetry group (ASSUMEs check they are 24 distinct bijections); the implementation's quality is "
+             "evaluated for every renumbering, under random rigid motions and scalings, with and without a neighbour, and for "
+             "stretched cubes; TLC judges the recorded values: equal within tolerance inside every orbit, non-decreasing and "
+             "direction-independent under stretching.",
+        note="Values are abstracted to integer codes round(1e7 ln(1+q)); tolerance 5 codes for renumbering/rigid motion, "
+             "0.1 in ln(1+q) for the loose scaling family (sizes >= 1); the strict scaling statement is a known finding "
+             "(guard VSMALL inside arccos).",
+        technique="TLA+ spec Quality.tla: symmetry-group generator + TLC judge of recorded quality values (rank/equality abstraction)",
+        ref="DESIGN.md section 4 C14"),
 }
 
 def main():
